@@ -16,6 +16,7 @@ import (
 	"os"
 	"runtime/debug"
 	"runtime/pprof"
+	"sort"
 	"strconv"
 	"strings"
 	"time"
@@ -45,6 +46,7 @@ type run struct {
 	exps  []expectation
 	nline int
 	quick bool
+	reduced map[string]int // non-canonical strings that decoded to the canonical values, per scheme and component
 }
 
 func (r *run) id() string { r.nline++; return strconv.Itoa(r.nline) }
@@ -110,7 +112,7 @@ func main() {
 		defer pprof.StopCPUProfile()
 	}
 	res := vh.NewResult("C15", a.Seed, a.Tier)
-	r := &run{a: a, res: res, quick: a.Tier != "thorough"}
+	r := &run{a: a, res: res, quick: a.Tier != "thorough", reduced: map[string]int{}}
 	res.Rule = "per scheme/variant/curve/hash: keys from the seeded stream incl. boundary keys 1, 2, n-1; random-length messages; sign through the public API; " +
 		"then every single-component alteration (message bit, r/R, s, v, public key, hash/DST, parity forms, identity / out-of-subgroup elements, missing / foreign aggregate contributors) " +
 		"is verified by the implementation (default and strict verifier) and predicted by the extracted model; a case is non-trivial when the signature was produced and reached the verification equation"
@@ -134,6 +136,14 @@ func main() {
 		lap("bls")
 	}
 	r.flush()
+	if len(r.reduced) > 0 {
+		var ks []string
+		for k, v := range r.reduced {
+			ks = append(ks, fmt.Sprintf("%s: %d", k, v))
+		}
+		sort.Strings(ks)
+		res.Note("decoders reduce, allowed by C13: the ECDSA / generic Schnorr CBOR scalar and point decoders and the BLS12-381 compressed point decoders accept c + k*M encodings and reduce them; such a string decodes to the identical struct-level values and is the same signature (same verdict as the canonical string checked): %s. BIP-340 and Mina decoders enforce canonical components (strict REJECT expectation).", strings.Join(ks, ", "))
+	}
 	res.Write(a.Out)
 }
 
